@@ -101,6 +101,7 @@ class Rec:
         self.rec1 = self.rec2 = None
         self.tp1 = self.tp2 = None   # (x, z) t-parity outputs of the two stages (rotated toric)
         self.cgraph = None
+        self.cgraph_items = []
         self.created = []
 
     __init__ = reset
@@ -157,6 +158,7 @@ def patched(D, rec):
 
     def h_cgraph(a, out):
         rec.cgraph = list(out.keys())
+        rec.cgraph_items = list(out.items())
 
     orig_node = D.__dict__.get('_ClusterNode')
     try:
@@ -437,6 +439,25 @@ def one(ctx, acc, D, dec, code, S, size, rows, ideal, em_spec, p, q, tag, toric=
     else:
         ctx.case('smwpm cnodes {} {} {} {}'.format(R, C, T, clw), cnw, nontrivial=cnw != '.', meta=dict(m, part='cnodes'))
         ctx.case('smwpm cedges {} {} {} {}'.format(R, C, T, clw), cew, nontrivial=cew != '.', meta=dict(m, part='cedges'))
+    # the WEIGHTS of the recorded cluster graph == Model/SmwpmWeight.lean `_cluster_distance` on the nodes' own clusters
+    # (Props/C03/Weights.lean); the first 60 edges of a graph
+    if getattr(rec, 'cgraph_items', None) and getattr(ctx, '_has_cdist', None) is None:
+        ctx._has_cdist = ctx.driver.ask(['smwpm cdist 3 1 1 N N'])[0] != 'bad-op'
+    if getattr(rec, 'cgraph_items', None) and ctx._has_cdist:
+        from qv.c03_weights import cl_w
+        for (a, b), w in rec.cgraph_items[:60]:
+            try:
+                want = str(int(w)) if int(w) == w else repr(w)
+            except Exception:   # noqa: BLE001
+                want = repr(w)
+            if toric:
+                ctx.case('smwpm tcdist {} {} {} {} {}'.format(R, C, T, cl_w(a.cluster), cl_w(b.cluster)), want,
+                         nontrivial=False, meta=dict(m, part='cluster-weights'))
+            else:
+                ctx.case('smwpm cdist {} {} {} {} {}'.format(T, int(bool(a.is_virtual)), int(bool(b.is_virtual)),
+                                                            cl_w(a.cluster), cl_w(b.cluster)), want,
+                         nontrivial=False, meta=dict(m, part='cluster-weights'))
+        ctx.count('smwpm.cluster-weights', 'graphs tied')
     cms = rec.matchings[1][1]
     try:
         # orientation kept: `_path_operator(a, b)` is NOT symmetric (diagonal first from a), so the recovery
